@@ -421,7 +421,14 @@ class Check:
         with open(path, "w") as f:
             json.dump(obj, f, indent=1, default=repr)
         self.violations.append((path, found_input, what))
-        if len(self.violations) <= 20:
+        if found_input:
+            self._print_violation(path, True, what)
+        # a broken correspondence / proof without a concrete failing input is
+        # only reported (in finish) when the whole run found no failing input
+
+    def _print_violation(self, path, found_input, what):
+        self._printed = getattr(self, "_printed", 0) + 1
+        if self._printed <= 20:
             tail = "" if found_input else " no-failing-input-found"
             print(f"VIOLATION property={self.pid} replay={path}{tail}", flush=True)
             print(f"  ({what})", flush=True)
@@ -479,6 +486,9 @@ class Check:
                            {"broken": broken, "proof": self.proof,
                             "build_log": self.build.log[-3000:] if self.build else ""},
                            found_input=False)
+        if self.violations and not any(v[1] for v in self.violations):
+            for path, fi, what in self.violations:
+                self._print_violation(path, False, what)
         cov = self.coverage
         cov["distinct_nontrivial"] = len(self._distinct)
         cov["rule"] = rule
